@@ -342,3 +342,72 @@ def function_nf(prog, fn, rename=None, batch_names=(), skip_calls=()):
         return ('ret', None)
 
     return block(fn.body())
+
+
+def nf_interval(t, env):
+    """Interval value of a normal-form tree with its free names bound to intervals (copstat.ivkind.IV); None when the tree
+    contains a node this evaluator does not model.  Used to *refute* the equality of two normal forms that are not
+    syntactically equal: disjoint values on a common box mean different functions."""
+    from .ivkind import IV, add, exp, log, mul, power
+    if not isinstance(t, tuple) or not t:
+        return None
+    k = t[0]
+    if k == 'num':
+        return IV(float(t[1])) if isinstance(t[1], (int, float)) else None
+    if k == 'name':
+        return env.get(t[1])
+    if k == '+':
+        out = IV(0.0)
+        for x in t[1:]:
+            v = nf_interval(x, env)
+            if v is None:
+                return None
+            out = add(out, v)
+        return out
+    if k == '*':
+        out = IV(1.0)
+        for x in t[1:]:
+            v = nf_interval(x, env)
+            if v is None:
+                return None
+            out = mul(out, v)
+        return out
+    if k == 'pow':
+        b, e = nf_interval(t[1], env), nf_interval(t[2], env)
+        return power(b, e) if b is not None and e is not None else None
+    if k == 'call' and len(t) == 3 and t[1] in ('exp', 'log', 'abs', 'sqrt'):
+        v = nf_interval(t[2], env)
+        if v is None:
+            return None
+        from .ivkind import absv, sqrt
+        return {'exp': exp, 'log': log, 'abs': absv, 'sqrt': sqrt}[t[1]](v)
+    return None
+
+
+def nf_names(t, acc=None):
+    acc = set() if acc is None else acc
+    if isinstance(t, tuple):
+        if t and t[0] == 'name' and len(t) == 2 and isinstance(t[1], str):
+            acc.add(t[1])
+        else:
+            for x in t[1:] if t and isinstance(t[0], str) else t:
+                nf_names(x, acc)
+    return acc
+
+
+def nf_refute_equal(a, b, boxes=3):
+    """True when two normal forms take disjoint interval values on some narrow box of their (common) free names."""
+    from .ivkind import IV
+    names = sorted(nf_names(a) | nf_names(b))
+    if not names or len(names) > 12:
+        return False
+    seeds = [(0.37, 0.11), (1.9, 0.23), (0.71, 0.53)][:boxes]
+    for base, step in seeds:
+        env = {n: IV(base + step * i, base + step * i + 1e-9) for i, n in enumerate(names)}
+        x, y = nf_interval(a, env), nf_interval(b, env)
+        if x is None or y is None or x.nan or y.nan:
+            continue
+        tol = 1e-6 * max(1.0, abs(x.lo), abs(x.hi), abs(y.lo), abs(y.hi))
+        if x.lo > y.hi + tol or x.hi < y.lo - tol:
+            return True
+    return False
